@@ -79,6 +79,7 @@ type server struct {
 	c        Case
 	reqs     []reqRec
 	consumed []*int
+	noLen    bool // responses carry no Content-Length (http.Response.ContentLength = -1, as with chunked encoding)
 }
 
 func (s *server) RoundTrip(req *http.Request) (*http.Response, error) {
@@ -182,8 +183,12 @@ func (s *server) RoundTrip(req *http.Request) (*http.Response, error) {
 	}
 	cnt := new(int)
 	s.consumed = append(s.consumed, cnt)
+	clen := int64(len(body))
+	if s.noLen {
+		clen = -1
+	}
 	return &http.Response{StatusCode: 200, Status: "200 OK", Header: h, Body: &counting{strings.NewReader(string(body)), cnt}, Request: req,
-		ContentLength: int64(len(body))}, nil
+		ContentLength: clen}, nil
 }
 
 var errCb = errors.New("verif: callback error")
@@ -276,76 +281,82 @@ func TestDrive(t *testing.T) {
 			}
 			continue
 		}
-		srv := &server{c: c}
-		pages := [][]int{}
-		var callErr error
-		last := ""
-		if c.Last > 0 {
-			last = item(c.Last)
-		}
-		cb := func(items []int) error {
-			pages = append(pages, items)
-			if c.CbFail != 0 && len(pages) == c.CbFail {
-				return errCb
+		// every case with a Content-Length; the oversize cases and every fourth other case also without one
+		for _, noLen := range []bool{false, true} {
+			if noLen && c.Oversize == 0 && ci%4 != 0 {
+				continue
 			}
-			return nil
-		}
-		strs := func(ss []string) error {
-			idx := []int{}
-			for _, s := range ss {
-				idx = append(idx, itemIndex(s))
+			srv := &server{c: c, noLen: noLen}
+			pages := [][]int{}
+			var callErr error
+			last := ""
+			if c.Last > 0 {
+				last = item(c.Last)
 			}
-			return cb(idx)
-		}
-		wantpath := ""
-		switch c.API {
-		case "tags":
-			r, _ := remote.NewRepository(host + "/" + repo)
-			r.PlainHTTP, r.Client, r.TagListPageSize, r.MaxMetadataBytes = true, &http.Client{Transport: srv}, c.N, limit
-			callErr = r.Tags(ctx, last, strs)
-			wantpath = "/v2/" + repo + "/tags/list"
-		case "repos":
-			r, _ := remote.NewRegistry(host)
-			r.PlainHTTP, r.Client, r.RepositoryListPageSize, r.MaxMetadataBytes = true, &http.Client{Transport: srv}, c.N, limit
-			callErr = r.Repositories(ctx, last, strs)
-			wantpath = "/v2/_catalog"
-		case "referrers":
-			r, _ := remote.NewRepository(host + "/" + repo)
-			r.PlainHTTP, r.Client, r.ReferrerListPageSize, r.MaxMetadataBytes = true, &http.Client{Transport: srv}, c.N, limit
-			r.SetReferrersCapability(true)
-			at := ""
-			if c.Filter != "" {
-				at = "application/vnd." + c.Filter
+			cb := func(items []int) error {
+				pages = append(pages, items)
+				if c.CbFail != 0 && len(pages) == c.CbFail {
+					return errCb
+				}
+				return nil
 			}
-			callErr = r.Referrers(ctx, subject, at, func(ds []ocispec.Descriptor) error {
+			strs := func(ss []string) error {
 				idx := []int{}
-				for _, d := range ds {
-					i, _ := strconv.Atoi(d.Annotations["idx"])
-					idx = append(idx, i)
+				for _, s := range ss {
+					idx = append(idx, itemIndex(s))
 				}
 				return cb(idx)
-			})
-			wantpath = "/v2/" + repo + "/referrers/" + subject.Digest.String()
+			}
+			wantpath := ""
+			switch c.API {
+			case "tags":
+				r, _ := remote.NewRepository(host + "/" + repo)
+				r.PlainHTTP, r.Client, r.TagListPageSize, r.MaxMetadataBytes = true, &http.Client{Transport: srv}, c.N, limit
+				callErr = r.Tags(ctx, last, strs)
+				wantpath = "/v2/" + repo + "/tags/list"
+			case "repos":
+				r, _ := remote.NewRegistry(host)
+				r.PlainHTTP, r.Client, r.RepositoryListPageSize, r.MaxMetadataBytes = true, &http.Client{Transport: srv}, c.N, limit
+				callErr = r.Repositories(ctx, last, strs)
+				wantpath = "/v2/_catalog"
+			case "referrers":
+				r, _ := remote.NewRepository(host + "/" + repo)
+				r.PlainHTTP, r.Client, r.ReferrerListPageSize, r.MaxMetadataBytes = true, &http.Client{Transport: srv}, c.N, limit
+				r.SetReferrersCapability(true)
+				at := ""
+				if c.Filter != "" {
+					at = "application/vnd." + c.Filter
+				}
+				callErr = r.Referrers(ctx, subject, at, func(ds []ocispec.Descriptor) error {
+					idx := []int{}
+					for _, d := range ds {
+						i, _ := strconv.Atoi(d.Annotations["idx"])
+						idx = append(idx, i)
+					}
+					return cb(idx)
+				})
+				wantpath = "/v2/" + repo + "/referrers/" + subject.Digest.String()
+			}
+			outcome := "ok"
+			switch {
+			case callErr == nil:
+			case errors.Is(callErr, errCb):
+				outcome = "cb"
+			case c.Oversize != 0 && len(srv.reqs) >= c.Oversize:
+				outcome = "toolarge"
+			default:
+				outcome = "err:" + callErr.Error()
+			}
+			consumed := []int{}
+			for _, p := range srv.consumed {
+				consumed = append(consumed, *p)
+			}
+			n++
+			tr := rot.Next()
+			tr.Begin(n)
+			tr.Emit(map[string]any{"e": "page", "case": ci, "c": c, "pages": pages, "reqs": srv.reqs, "outcome": outcome, "consumed": consumed,
+				"limit": limit, "wantpath": wantpath, "nolen": noLen})
 		}
-		outcome := "ok"
-		switch {
-		case callErr == nil:
-		case errors.Is(callErr, errCb):
-			outcome = "cb"
-		case c.Oversize != 0 && len(srv.reqs) >= c.Oversize:
-			outcome = "toolarge"
-		default:
-			outcome = "err:" + callErr.Error()
-		}
-		consumed := []int{}
-		for _, p := range srv.consumed {
-			consumed = append(consumed, *p)
-		}
-		n++
-		tr := rot.Next()
-		tr.Begin(n)
-		tr.Emit(map[string]any{"e": "page", "case": ci, "c": c, "pages": pages, "reqs": srv.reqs, "outcome": outcome, "consumed": consumed,
-			"limit": limit, "wantpath": wantpath})
 	}
 	rot.Close()
 	sum, _ := json.Marshal(map[string]any{"cases": len(cases), "records": n, "files": rot.Files})
